@@ -21,7 +21,7 @@ fn zone_list() -> &'static Vec<Arc<Zone>> {
     static U: std::sync::OnceLock<Vec<Arc<Zone>>> = std::sync::OnceLock::new();
     U.get_or_init(|| {
         let mut v = vec![];
-        for l in ["file:America/New_York", "file:Europe/London", "file:Asia/Kolkata", "file:Asia/Kathmandu", "file:Africa/Monrovia", "file:Australia/Lord_Howe", "file:Pacific/Apia", "file:America/St_Johns", "file:Europe/Amsterdam", "file:Etc/GMT+5", "file:Etc/GMT-14", "file:Etc/GMT+12", "file:America/Port-au-Prince", "file:America/Argentina/ComodRivadavia", "file:America/North_Dakota/New_Salem", "file:EST5EDT", "file:GMT+0", "file:GMT-0", "file:Etc/GMT0", "file:W-SU", "file:NZ-CHAT", "utc", "fixed:0", "fixed:3600", "fixed:-34200", "fixed:20700", "fixed:93599", "fixed:-93599", "fixed:45296", "fixed:-2821", "posix:EST5EDT,M3.2.0,M11.1.0"] {
+        for l in ["file:America/New_York", "file:Europe/London", "file:Asia/Kolkata", "file:Asia/Kathmandu", "file:Africa/Monrovia", "file:Australia/Lord_Howe", "file:Pacific/Apia", "file:America/St_Johns", "file:Europe/Amsterdam", "file:Etc/GMT+5", "file:Etc/GMT-14", "file:Etc/GMT+12", "file:America/Port-au-Prince", "file:America/Argentina/ComodRivadavia", "file:America/North_Dakota/New_Salem", "file:EST5EDT", "file:GMT+0", "file:GMT-0", "file:Etc/GMT0", "file:W-SU", "file:NZ-CHAT", "file:Pacific/Guam", "posix:<aAA>3<bBb>,M3.2.0,M11.1.0", "utc", "fixed:0", "fixed:3600", "fixed:-34200", "fixed:20700", "fixed:93599", "fixed:-93599", "fixed:45296", "fixed:-2821", "posix:EST5EDT,M3.2.0,M11.1.0"] {
             if let Some(z) = zones::by_label(l) {
                 v.push(z);
             }
@@ -260,7 +260,13 @@ fn test_specifier(c: &SpecCase, cx: &mut Cx) -> CaseResult {
             if f.z.label.starts_with("fixed:") || f.z.label == "utc" {
                 None
             } else {
-                Some(case(&f.z.rz.lookup(f.inst_ns.div_euclid(NS_PER_SEC) as i64).abbr))
+                // as the zone data spells it ("ChST"); `^` upper-cases, `#` gives lower case (glibc too)
+                let abbr = f.z.rz.lookup(f.inst_ns.div_euclid(NS_PER_SEC) as i64).abbr;
+                Some(match c.flag {
+                    Some('^') => abbr.to_uppercase(),
+                    Some('#') => abbr.to_lowercase(),
+                    _ => abbr,
+                })
             }
         }
         _ => None,
@@ -331,6 +337,9 @@ const ZONED_FORMATS: &[&str] = &[
     "%Y %W %u %T%.f %z",
     "%Y-%U-%a %H:%M:%S %:z",
     "%Y/%W/%a %T %z",
+    // day of year plus a (redundant) weekday
+    "%Y-%j %a %T%.f %z",
+    "%A, day %j in %Y, %T %:z",
 ];
 const CIVIL_FORMATS: &[&str] = &["%Y-%m-%d %H:%M:%S%.f", "%F %T.%f", "%A %B %d %Y %I.%M.%S%.f %p", "%Y %j %R:%S%.f", "%G %V %u %T%.f", "%m/%d/%Y %T%.f", "%d %b %Y %H%M%S%.f", "%Y%m%d%H%M%S", "%Y %U %w %T%.f", "%Y %W %u %T%.f", "%Y-W%U-%a %T"];
 
@@ -378,11 +387,81 @@ fn test_roundtrip(c: &RtCase, cx: &mut Cx) -> CaseResult {
                 ensure!(ts.as_nanosecond() == want, "timestamp-roundtrip", "{ctx}: Timestamp::strptime gives {ts}");
             }
         }
+        // the same text by the other public routes, and the parsed fields one by one
+        {
+            use jiff::fmt::strtime::BrokenDownTime;
+            let bdt = BrokenDownTime::from(&f.zdt);
+            let via_display = f.zdt.strftime(zf).to_string();
+            let via_bdt = bdt.to_string(zf);
+            let mut via_write = String::new();
+            let wrote = bdt.format(zf, &mut via_write);
+            let mut trickle = jiff::fmt::StdIoWrite(gen::Trickle::new(1 + (f.ns % 5) as usize));
+            let wrote2 = bdt.format(zf, &mut trickle);
+            ensure!(wrote2.is_ok() && trickle.0.buf == text.as_bytes(), "format-routes-differ", "{ctx}: BrokenDownTime::format into a sink taking a few bytes per call wrote {:?}", trickle.0.text());
+            ensure!(via_display == text && via_bdt.as_deref().ok() == Some(text.as_str()) && wrote.is_ok() && via_write == text, "format-routes-differ", "{ctx}: Zoned::strftime {via_display:?}, BrokenDownTime::to_string {via_bdt:?}, BrokenDownTime::format {via_write:?}");
+            let named_here = if named { f.zdt.time_zone().iana_name() } else { None };
+            ensure!(
+                bdt.year().map(i64::from) == Some(f.y) && bdt.month().map(i64::from) == Some(f.m) && bdt.day().map(i64::from) == Some(f.d) && bdt.hour().map(i64::from) == Some(f.h) && bdt.minute().map(i64::from) == Some(f.mi) && bdt.second().map(i64::from) == Some(f.s)
+                    && bdt.subsec_nanosecond().map(i64::from) == Some(f.ns) && bdt.weekday().map_or(true, |w| w.to_monday_zero_offset() as i64 == f.wd_mon0) && bdt.offset().map(|o| o.seconds()) == Some(f.off) && (named_here.is_none() || bdt.iana_time_zone() == named_here),
+                "broken-down-from-zoned-fields",
+                "{ctx}: BrokenDownTime::from(&zoned) = {bdt:?}"
+            );
+            if zf.contains("%s") || !needs_name || named {
+                match strtime::parse(zf, &text) {
+                    Ok(p) => {
+                        let has = |specs: &[&str]| specs.iter().any(|s| zf.contains(s));
+                        let (iy, iw, _) = rc::iso_week(rc::to_days(f.y, f.m, f.d));
+                        let wd_sun0 = (f.wd_mon0 + 1) % 7;
+                        let mut bad: Vec<String> = vec![];
+                        let mut chk = |cond: bool, name: &str, got: String| {
+                            if !cond {
+                                bad.push(format!("{name}={got}"));
+                            }
+                        };
+                        if has(&["%Y", "%F"]) { chk(p.year().map(i64::from) == Some(f.y), "year", format!("{:?}", p.year())); }
+                        if has(&["%m", "%b", "%B", "%F"]) { chk(p.month().map(i64::from) == Some(f.m), "month", format!("{:?}", p.month())); }
+                        if has(&["%d", "%e", "%F"]) { chk(p.day().map(i64::from) == Some(f.d), "day", format!("{:?}", p.day())); }
+                        if has(&["%H", "%k", "%T"]) { chk(p.hour().map(i64::from) == Some(f.h), "hour", format!("{:?}", p.hour())); }
+                        if has(&["%M", "%T"]) { chk(p.minute().map(i64::from) == Some(f.mi), "minute", format!("{:?}", p.minute())); }
+                        if has(&["%S", "%T"]) { chk(p.second().map(i64::from) == Some(f.s), "second", format!("{:?}", p.second())); }
+                        if has(&["%j"]) { chk(p.day_of_year().map(i64::from) == Some(f.yday), "day_of_year", format!("{:?}", p.day_of_year())); }
+                        if has(&["%G"]) { chk(p.iso_week_year().map(i64::from) == Some(iy), "iso_week_year", format!("{:?}", p.iso_week_year())); }
+                        if has(&["%V"]) { chk(p.iso_week().map(i64::from) == Some(iw), "iso_week", format!("{:?}", p.iso_week())); }
+                        if has(&["%U"]) { chk(p.sunday_based_week().map(i64::from) == Some((f.yday - 1 + 7 - wd_sun0) / 7), "sunday_based_week", format!("{:?}", p.sunday_based_week())); }
+                        if has(&["%W"]) { chk(p.monday_based_week().map(i64::from) == Some((f.yday - 1 + 7 - f.wd_mon0) / 7), "monday_based_week", format!("{:?}", p.monday_based_week())); }
+                        if has(&["%a", "%A", "%u", "%w"]) { chk(p.weekday().map(|w| w.to_monday_zero_offset() as i64) == Some(f.wd_mon0), "weekday", format!("{:?}", p.weekday())); }
+                        if has(&["%z", "%:z"]) { chk(p.offset().map(|o| o.seconds()) == Some(f.off), "offset", format!("{:?}", p.offset())); }
+                        if has(&["%p", "%P"]) { chk(p.meridiem().map(|m| format!("{m:?}")) == Some(if f.h >= 12 { "PM".to_string() } else { "AM".to_string() }), "meridiem", format!("{:?}", p.meridiem())); }
+                        if has(&["%Q", "%:Q"]) && named { chk(p.iana_time_zone() == f.zdt.time_zone().iana_name(), "iana_time_zone", format!("{:?}", p.iana_time_zone())); }
+                        ensure!(bad.is_empty(), "parsed-fields-wrong", "{ctx}: parsed fields differ from the value printed: {}", bad.join(", "));
+                        // conversions of the parsed fields
+                        let z1 = p.to_zoned().ok().map(|z| (z.timestamp().as_nanosecond(), z.offset().seconds()));
+                        let z2 = p.to_zoned_with(jiff::tz::db()).ok().map(|z| (z.timestamp().as_nanosecond(), z.offset().seconds()));
+                        ensure!(z1 == Some((want, f.off)) && z2 == z1, "parsed-to-zoned-wrong", "{ctx}: parse().to_zoned() = {z1:?}, to_zoned_with(db) = {z2:?}, want ({want}, {})", f.off);
+                        if !zf.contains("%s") {
+                            let dtw = f.zdt.datetime();
+                            let dtw = if has_frac { dtw } else { dtw.date().at(dtw.hour(), dtw.minute(), dtw.second(), 0) };
+                            ensure!(p.to_datetime().ok() == Some(dtw) && p.to_date().ok() == Some(dtw.date()) && p.to_time().ok() == Some(dtw.time()), "parsed-to-civil-wrong", "{ctx}: parse().to_datetime() = {:?}", p.to_datetime());
+                        }
+                        // parse_prefix stops exactly at the end of the formatted text
+                        let longer = format!("{text}\u{1}tail");
+                        match BrokenDownTime::parse_prefix(zf, &longer) {
+                            Ok((p2, used)) => ensure!(used == text.len() && p2.to_zoned().ok().map(|z| z.timestamp().as_nanosecond()) == Some(want), "parse_prefix-wrong", "{ctx}: parse_prefix consumed {used} of {} bytes", text.len()),
+                            Err(e) => fail!("parse_prefix-err", "{ctx}: parse_prefix: {e}"),
+                        }
+                    }
+                    Err(e) => {
+                        let tag = if zf.contains("%A") && f.wd_mon0 == 1 { ":%A-Tuesday" } else { "" };
+                        fail!(format!("zoned-reparse-err{tag}"), "{ctx}: strtime::parse: {e}")
+                    }
+                }
+            }
+        }
         // contradictory text must be rejected
         if let Some(k) = c.perturb {
             // only where the weekday is redundant (the date is given by day
             // of month); with %U/%W the weekday is part of the date itself
-            if (zf.contains("%A") || zf.contains("%a")) && (zf.contains("%d") || zf.contains("%e")) {
+            if (zf.contains("%A") || zf.contains("%a")) && (zf.contains("%d") || zf.contains("%e") || zf.contains("%j")) {
                 let names: Vec<&str> = if zf.contains("%A") { WEEKDAYS.to_vec() } else { WEEKDAYS.iter().map(|w| &w[..3]).collect() };
                 let cur = names[f.wd_mon0 as usize];
                 let other = names[((f.wd_mon0 + 1 + (k % 6) as i64) % 7) as usize];
@@ -399,6 +478,68 @@ fn test_roundtrip(c: &RtCase, cx: &mut Cx) -> CaseResult {
     let dt: DateTime = f.zdt.datetime();
     let text = strtime::format(cf, dt).map_err(|e| Failure::new("format-civil-err", format!("strftime({cf:?}, {dt}) = Err({e})")))?;
     let has_frac = cf.contains("f");
+    {
+        // a BrokenDownTime filled in through its setters is the same value
+        use jiff::fmt::strtime::BrokenDownTime;
+        let via_display = dt.strftime(cf).to_string();
+        let via_bdt = BrokenDownTime::from(dt).to_string(cf);
+        ensure!(via_display == text && via_bdt.as_deref().ok() == Some(text.as_str()), "format-routes-differ", "{cf:?}: DateTime::strftime {via_display:?}, BrokenDownTime::from(dt).to_string {via_bdt:?}, strtime::format {text:?}");
+        let set_time = |b: &mut BrokenDownTime| -> bool { b.set_hour(Some(f.h as i8)).is_ok() && b.set_minute(Some(f.mi as i8)).is_ok() && b.set_second(Some(f.s as i8)).is_ok() && b.set_subsec_nanosecond(Some(f.ns as i32)).is_ok() };
+        let wd = jiff::civil::Weekday::from_monday_zero_offset(f.wd_mon0 as i8).unwrap();
+        let (iy, iw, _) = rc::iso_week(rc::to_days(f.y, f.m, f.d));
+        let wd_sun0 = (f.wd_mon0 + 1) % 7;
+        let mut b1 = BrokenDownTime::default();
+        let ok1 = b1.set_year(Some(f.y as i16)).is_ok() && b1.set_month(Some(f.m as i8)).is_ok() && b1.set_day(Some(f.d as i8)).is_ok() && set_time(&mut b1);
+        b1.set_weekday(Some(wd));
+        b1.set_offset(Some(f.zdt.offset()));
+        ensure!(ok1, "setter-rejects-valid", "{dt}: a setter refused a valid field");
+        ensure!(b1.to_datetime().ok() == Some(dt) && b1.to_date().ok() == Some(dt.date()) && b1.to_time().ok() == Some(dt.time()), "setter-built-civil-wrong", "{dt}: set fields give {:?}", b1.to_datetime());
+        // local time + offset determine the instant, unless it leaves the timestamp range
+        let want_inst = crate::props::c04::dt_to_civil(dt) - f.off as i128 * NS_PER_SEC;
+        if rz::in_ts_range(want_inst) {
+            ensure!(b1.to_timestamp().ok().map(|t| t.as_nanosecond()) == Some(want_inst), "setter-built-timestamp-wrong", "{dt} {}: to_timestamp = {:?} want {want_inst}", f.zdt.offset(), b1.to_timestamp());
+            let zz = b1.to_zoned().ok().map(|z| (z.timestamp().as_nanosecond(), z.offset().seconds()));
+            ensure!(zz == Some((want_inst, f.off)), "setter-built-zoned-wrong", "{dt} {}: to_zoned = {zz:?}", f.zdt.offset());
+        }
+        let simple = "%Y-%m-%d %H:%M:%S%.f %z";
+        let s1 = b1.to_string(simple);
+        let s2 = strtime::format(simple, &f.zdt);
+        ensure!(s1.is_ok() && s1.as_deref().ok() == s2.as_deref().ok(), "setter-built-format-differs", "{dt}: setter-built prints {s1:?}, the zoned value prints {s2:?}");
+        // the other ways of naming the date
+        let mut alts: Vec<(&str, BrokenDownTime, bool)> = vec![];
+        let mut b = BrokenDownTime::default();
+        let ok = b.set_year(Some(f.y as i16)).is_ok() && b.set_day_of_year(Some(f.yday as i16)).is_ok();
+        alts.push(("year + day of year", b, ok));
+        let mut b = BrokenDownTime::default();
+        let ok = b.set_iso_week_year(Some(iy as i16)).is_ok() && b.set_iso_week(Some(iw as i8)).is_ok();
+        b.set_weekday(Some(wd));
+        alts.push(("ISO week year + ISO week + weekday", b, ok || !(-9999..=9999).contains(&iy)));
+        let mut b = BrokenDownTime::default();
+        let ok = b.set_year(Some(f.y as i16)).is_ok() && b.set_sunday_based_week(Some(((f.yday - 1 + 7 - wd_sun0) / 7) as i8)).is_ok();
+        b.set_weekday(Some(wd));
+        alts.push(("year + Sunday based week + weekday", b, ok));
+        let mut b = BrokenDownTime::default();
+        let ok = b.set_year(Some(f.y as i16)).is_ok() && b.set_monday_based_week(Some(((f.yday - 1 + 7 - f.wd_mon0) / 7) as i8)).is_ok();
+        b.set_weekday(Some(wd));
+        alts.push(("year + Monday based week + weekday", b, ok));
+        for (name, b, ok) in alts {
+            ensure!(ok, "setter-rejects-valid", "{dt}: a setter refused a valid field ({name})");
+            if (-9999..=9999).contains(&iy) || !name.starts_with("ISO") {
+                ensure!(b.to_date().ok() == Some(dt.date()), format!("setter-built-date-wrong:{name}"), "{}: {name} gives {:?}", dt.date(), b.to_date());
+            }
+        }
+        // a weekday that contradicts the date is refused, whichever way the date is named
+        if let Some(k) = c.perturb {
+            let wrong = wd.wrapping_add(1 + (k % 6) as i64);
+            let mut b = BrokenDownTime::from(dt);
+            b.set_weekday(Some(wrong));
+            ensure!(b.to_date().is_err() && b.to_datetime().is_err(), "contradictory-weekday-accepted", "{dt}: set_weekday({:?}) contradicts the date but to_date() = {:?}", b.weekday(), b.to_date());
+            let mut b = BrokenDownTime::default();
+            let _ = (b.set_year(Some(f.y as i16)), b.set_day_of_year(Some(f.yday as i16)));
+            b.set_weekday(Some(wrong));
+            ensure!(b.to_date().is_err(), "contradictory-weekday-accepted", "{dt}: year + day of year {} with weekday {wrong:?} gives {:?}", f.yday, b.to_date());
+        }
+    }
     match DateTime::strptime(cf, &text) {
         Ok(p) => {
             let want = if has_frac { dt } else { dt.date().at(dt.hour(), dt.minute(), dt.second(), 0) };
@@ -480,6 +621,33 @@ fn test_rfc2822(c: &RtCase, cx: &mut Cx) -> CaseResult {
         match rfc2822::parse(&alt) {
             Ok(p) => ensure!(rz::in_ts_range(alt_inst) && p.offset().seconds() == hours * 3600 && p.datetime() == want_dt, "rfc2822-obsolete-zone", "{alt:?} parsed as {p}"),
             Err(e) => ensure!(!rz::in_ts_range(alt_inst), "rfc2822-obsolete-zone-err", "{alt:?}: {e}"),
+        }
+    }
+    // the Write-based routes give the same text; the relaxed-weekday parser gives the same value
+    {
+        let pr = rfc2822::DateTimePrinter::new();
+        let mut b = String::new();
+        ensure!(pr.print_zoned(&f.zdt, &mut b).is_ok() && b == text && pr.zoned_to_string(&f.zdt).ok().as_deref() == Some(text.as_str()), "rfc2822-print-routes-differ", "{ctx}: print_zoned wrote {b:?}");
+        let p2 = rfc2822::DateTimeParser::new().relaxed_weekday(true).parse_zoned(&text).map_err(|e| Failure::new("rfc2822-reparse-err", format!("{ctx}: relaxed_weekday: {e}")))?;
+        ensure!(p2 == p && p2.offset() == p.offset(), "rfc2822-roundtrip", "{ctx}: relaxed_weekday parses {p2}");
+    }
+    // RFC 9110 (HTTP) form of a timestamp: fixed 29 characters, always GMT, two-digit day,
+    // fractional seconds dropped (the civil second that contains the instant)
+    {
+        let ts = f.zdt.timestamp();
+        let (uy, um, ud, utod) = crate::props::c02::ref_civil(f.inst_ns, 0);
+        let pr = rfc2822::DateTimePrinter::new();
+        let got = pr.timestamp_to_rfc9110_string(&ts);
+        if (0..=9999).contains(&uy) {
+            let uwd = rc::weekday_mon0(rc::to_days(uy, um, ud));
+            let want = format!("{}, {:02} {} {:04} {:02}:{:02}:{:02} GMT", &WEEKDAYS[uwd as usize][..3], ud, &MONTHS[(um - 1) as usize][..3], uy, utod / (3600 * NS_PER_SEC), utod / (60 * NS_PER_SEC) % 60, utod / NS_PER_SEC % 60);
+            ensure!(got.as_deref().ok() == Some(want.as_str()), "rfc9110-wrong", "timestamp_to_rfc9110_string({ts}) = {got:?}, want {want:?}");
+            let mut b = String::new();
+            ensure!(pr.print_timestamp_rfc9110(&ts, &mut b).is_ok() && b == want, "rfc9110-wrong", "print_timestamp_rfc9110({ts}) wrote {b:?}, want {want:?}");
+            let back = rfc2822::DateTimeParser::new().parse_timestamp(&want).map_err(|e| Failure::new("rfc9110-reparse-err", format!("{want:?}: {e}")))?;
+            ensure!(back.as_nanosecond() == f.inst_ns.div_euclid(NS_PER_SEC) * NS_PER_SEC, "rfc9110-roundtrip", "{ts} -> {want:?} -> {back}");
+        } else {
+            ensure!(got.is_err(), "rfc9110-prints-unrepresentable-year", "timestamp_to_rfc9110_string({ts}) = {got:?}");
         }
     }
     // timestamps print in UTC and parse back to the second
